@@ -882,4 +882,81 @@ theorem parseDurationTok_of {lit : Str} {d : Int} (hp : parseDuration lit = .ok 
 
 end steps
 
+/-! ## look-ahead and optional clauses -/
+
+/-- A one-token look-ahead at the head of a legal spelling (`ScanIgnoreWhitespace`, then `Unscan`):
+the token is the first piece's, and the parser is still around the text. -/
+theorem peek_step (s : PState) (g : Gap) (p : Piece) (l : List (Gap × Piece)) (k : Str)
+    (hL : Legal ((g, p) :: l) k) (hs : s.Around (render ((g, p) :: l) ++ k)) :
+    ∃ lx s1, scanIW.run s = .ok (lx, s1) ∧ lx.tok = p.tok ∧
+      ({ s1 with n := s1.n + 1 } : PState).Around (render ((g, p) :: l) ++ k) := by
+  obtain ⟨s0, hb, he⟩ := hs.scanIW_eq
+  obtain ⟨lx, s1, h1, t1, _, _⟩ := step s0 g p l k hL hb.around
+  exact ⟨lx, s1, by rw [he]; exact h1, t1, s0, hb, Or.inr ⟨lx, s1, h1, rfl⟩⟩
+
+/-- The first piece of the list, if any, has its token among `ts`. -/
+def HeadTokIn (l : List (Gap × Piece)) (ts : List Token) : Prop := ∀ g p l', l = (g, p) :: l' → p.tok ∈ ts
+
+theorem HeadTokIn.nil (ts : List Token) : HeadTokIn [] ts := by intro g p l' h; cases h
+
+theorem HeadTokIn.cons (g : Gap) (p : Piece) (l : List (Gap × Piece)) (ts : List Token) (h : p.tok ∈ ts) :
+    HeadTokIn ((g, p) :: l) ts := by
+  intro g' p' l' e
+  simp only [List.cons.injEq, Prod.mk.injEq] at e
+  rw [← e.1.2]; exact h
+
+theorem HeadTokIn.append {l1 l2 : List (Gap × Piece)} {ts1 ts2 : List Token} (h1 : HeadTokIn l1 ts1)
+    (h2 : HeadTokIn l2 ts2) : HeadTokIn (l1 ++ l2) (ts1 ++ ts2) := by
+  intro g p l' e
+  cases l1 with
+  | nil => exact List.mem_append_right _ (h2 g p l' e)
+  | cons gp l1' =>
+    simp only [List.cons_append, List.cons.injEq] at e
+    exact List.mem_append_left _ (h1 g p l1' (by rw [e.1]))
+
+/-- The first significant token of `render l ++ k` is not `t` when `l` cannot start with `t` and
+`k` does not. -/
+theorem nextNot_render (l : List (Gap × Piece)) (k : Str) (t : Token) (ts : List Token) (hL : Legal l k)
+    (hh : HeadTokIn l ts) (ht : t ∉ ts) (hk : NextNot k t) : NextNot (render l ++ k) t := by
+  cases l with
+  | nil => exact hk
+  | cons gp l' =>
+    obtain ⟨g, p⟩ := gp
+    exact nextNot_legal g p l' k t hL (fun e => ht (e ▸ hh g p l' rfl))
+
+/-- An optional keyword that is not written: one token is looked at and pushed back. -/
+theorem optTok_absent_render (t : Token) (s : PState) (l : List (Gap × Piece)) (k : Str) (ts : List Token)
+    (hs : s.Around (render l ++ k)) (hL : Legal l k) (hh : HeadTokIn l ts) (ht : t ∉ ts) (hk : NextNot k t) :
+    ∃ s', (optTok t).run s = .ok (false, s') ∧ s'.Around (render l ++ k) :=
+  optTok_absent_around t s _ hs (nextNot_render l k t ts hL hh ht hk)
+
+/-- How a duration is written where `ParseDuration` reads it: a duration literal, or `INF`. -/
+inductive DurSpelling where
+  | lit (l : Str)
+  | inf (w : Str)
+
+def DurSpelling.piece : DurSpelling → Piece
+  | .lit l => .dur l
+  | .inf w => .kw .INF w
+
+/-- The value denoted: what `ParseDuration` (the function of the library) computes for the
+literal; zero for `INF`. -/
+def DurSpelling.Denotes : DurSpelling → Int → Prop
+  | .lit l, d => parseDuration l = .ok d
+  | .inf _, d => d = 0
+
+theorem parseDurationTok_spelled {s : PState} {k : Str} {ds : DurSpelling} {d : Int} (hd : ds.Denotes d)
+    (h : Delivers s ds.piece.tok ds.piece.lit k) :
+    ∃ s', parseDurationTok.run s = .ok (d, s') ∧ s'.Before k := by
+  cases ds with
+  | lit l => exact parseDurationTok_of hd h
+  | inf w =>
+    obtain ⟨lx, s', h, h1, _, h3⟩ := h
+    have h1' : lx.tok = .INF := h1
+    have hd' : d = 0 := hd
+    refine ⟨s', ?_, h3⟩
+    unfold parseDurationTok
+    rw [P.run_bind _ _ s lx s' h]
+    simp [h1', hd', StateT.run, pure, StateT.pure, Except.pure]
+
 end InfluxQL.Render
